@@ -194,6 +194,7 @@ type State struct {
 	frames  []*Frame
 	iters   map[ssa.Value]*iterInfo
 	initMod bool
+	dead    bool
 }
 
 func newState() *State {
@@ -250,6 +251,50 @@ func (s *State) assume(t *Term) {
 		return
 	}
 	s.pc = append(s.pc, t)
+}
+
+// substVar replaces a variable by a ground value everywhere in the state.
+func (s *State) substVar(v, g *Term) {
+	m := map[*Term]*Term{v: g}
+	for k, t := range s.env {
+		if t.Extra == nil {
+			s.env[k] = Subst(t, m)
+		} else if t.Op == "tuple" {
+			args := make([]*Term, len(t.Args))
+			for i, a := range t.Args {
+				args[i] = Subst(a, m)
+			}
+			s.env[k] = mkTuple(args...)
+		} else if li, ok := t.Extra.(*locInfo); ok {
+			np := make([]pathElem, len(li.path))
+			for i, pe := range li.path {
+				np[i] = pe
+				if pe.index != nil {
+					np[i].index = Subst(pe.index, m)
+				}
+			}
+			s.env[k] = mkLoc(li.cell, Subst(li.ref, m), np)
+		}
+	}
+	for k, h := range s.heap {
+		s.heap[k] = Subst(h, m)
+	}
+	for i, t := range s.pc {
+		s.pc[i] = Subst(t, m)
+	}
+	var pc []*Term
+	for _, t := range s.pc {
+		if !t.IsTrue() {
+			pc = append(pc, t)
+		}
+	}
+	// keep the binding itself so that obligations still mention the parameter
+	s.pc = append(pc, mk("=", SBool, v, g))
+	for _, f := range s.frames {
+		for i, b := range f.bindings {
+			f.bindings[i] = Subst(b, m)
+		}
+	}
 }
 
 func (s *State) lw() *Term { return Sub(s.lwBase, IntLit(s.lwOff)) }
@@ -389,10 +434,20 @@ func (s *State) refBound(v *Term, T types.Type, depth int) []*Term {
 	switch u := T.Underlying().(type) {
 	case *types.Pointer, *types.Map:
 		if !v.IsLit() {
-			out = append(out, Ge(v, s.lw()))
+			if preState(v) {
+				nonNegRef[v] = true
+				out = append(out, Ge(v, IntLit(0)))
+			} else {
+				out = append(out, Ge(v, s.lw()))
+			}
 		}
 	case *types.Slice:
-		out = append(out, Ge(Sel(v, 0), s.lw()))
+		if preState(v) {
+			nonNegRef[Sel(v, 0)] = true
+			out = append(out, Ge(Sel(v, 0), IntLit(0)))
+		} else {
+			out = append(out, Ge(Sel(v, 0), s.lw()))
+		}
 	case *types.Struct:
 		if depth > 3 {
 			break
